@@ -85,8 +85,17 @@ func newH(rt *rapid.T, prop string, o sim.Options) *H {
 	if o.ClientID == "" {
 		o.ClientID = clientID
 	}
+	// what really holds the records behind the recording Persistence double:
+	// its own map, the library's in-memory Persistence (VolatileSession), or
+	// mqtt.FileSystem on a scratch directory
+	if o.StoreFlavour == "" {
+		o.StoreFlavour = rapid.SampledFrom([]string{"memory", "memory", "memory", "memory", "memory", "volatile", "volatile", "filesystem"}).Draw(rt, "persistenceBehindTheDouble")
+	}
 	w := sim.New(rt, o)
 	h := &H{World: w, rt: rt, prop: prop, labels: map[string]bool{}, born: time.Now()}
+	if w.Store.Flavour != "memory" {
+		h.labels["records-held-by-the-library's-"+w.Store.Flavour+"-persistence"] = true
+	}
 	w.WithLock(func() { h.brokerInit = w.Broker.Snapshot() })
 	// connections behave like net.Pipe or like TCP where the two differ
 	w.PipeLike = rapid.Bool().Draw(rt, "pipeLikeConnections")
